@@ -26,7 +26,7 @@ CORNERS = [dict(inline_functions=a, tail_call_optimization=b, use_push_pop_funct
 
 def plan(tier, seed):
     q = tier == "quick"
-    tasks = pool.batches("gen", 700 if q else 12000, 10) + pool.batches("tail", 200 if q else 3000, 10) + pool.batches("corpus", len(workload.corpus()), 2)
+    tasks = pool.batches("gen", 560 if q else 10000, 10) + pool.batches("echo", 160 if q else 3000, 10) + pool.batches("tail", 180 if q else 3000, 10) + pool.batches("corpus", len(workload.corpus()), 2)
     for hz in workload.HAZARDS:
         tasks += pool.batches(f"defect:{hz}", 30 if q else 300, 10)
     return dict(tasks=tasks, nworkers=14, time_cap=85 if q else 880)
@@ -54,6 +54,10 @@ def gen_case(task, i):
         from .. import gen_shapes
 
         c = dict(src=gen_shapes.tail_program(r))
+    elif st == "echo":
+        from .. import gen_shapes
+
+        c = dict(src=gen_shapes.echo_program(r))  # incl. the suffix-name, once-called and pass-through families
     else:
         c, _ = workload.gen_program(ID, st, i)
     return dict(src=c["src"], vectors=_vectors(r, tier_k), env_seeds=[f"{i}:0", f"{i}:1"], stream=st, pragma_vector=opts_from_bits(r.randrange(256)))
